@@ -76,4 +76,138 @@ theorem save_writes_fields {o : Obj} {os : OStream} {r : SaveRes} (h : save o os
   exact ⟨FrameL.comp (S := ResFrame) (T := SecSaved)
     (fun a m b h1 h2 => by obtain ⟨a0, h0, h1'⟩ := h1; exact secSaved_of h0 h1' h2) f01 f2, fs, e1, e2, e3⟩
 
+/-! ### 2. the memory image -/
+
+/-- equidistance of member `s` in segment `g` (C04's `member_equidistant`): the section lies as far
+    behind the segment's start in the file as in memory, i.e. the loader maps its first byte to its
+    address -/
+def Equidistant (g : Seg) (s : SecBuf) : Prop := g.vaddr + (s.offset - g.offset) = s.addr
+
+/-- **the step that places a member establishes equidistance** (ELF64): whenever
+    `write_segment_data` places a not-yet-generated member that either had no address or is
+    file-occupying and non-empty, the section's new offset and address satisfy
+    `vaddr_g + (offset_s − segment start) = addr_s`.  (A NOBITS or empty member *with* an explicit
+    address is placed at the cursor regardless of its address — F14 — and is excluded.) -/
+theorem wsdStep_equidistant {g : Seg} {ss : BitVec 64} {st st' : WsdSt} {idx : BitVec 16} {sec : SecBuf}
+    (h : wsdStep .c64 g ss st idx = .ok (some st')) (hs : st.lay.secs[idx.toNat]? = some sec)
+    (hgen : st.lay.gen[idx.toNat]? = some false) (hnn : wsd_is_null sec.stype = false)
+    (hidx : sec.index ≠ 0)
+    (hocc : sec.addrSet = false ∨ (sec.stype ≠ BitVec.ofNat 32 SHT_NOBITS ∧ sec.size ≠ 0)) :
+    ∃ sec', st'.lay.secs[idx.toNat]? = some sec' ∧ g.vaddr + (sec'.offset - ss) = sec'.addr ∧
+      sec'.addrSet = true := by
+  unfold wsdStep at h
+  rw [hs, hgen] at h
+  simp only [hnn, Bool.false_eq_true, if_false] at h
+  have hi : (sec.index != 0) = true := by simpa using hidx
+  split at h
+  · cases h
+  · rename_i gap hgap
+    simp only [pure, Except.pure, Except.ok.injEq, Option.some.injEq] at h
+    subst h
+    have hlt : idx.toNat < st.lay.secs.length := by
+      rcases Nat.lt_or_ge idx.toNat st.lay.secs.length with h' | h'
+      · exact h'
+      · rw [List.getElem?_eq_none h'] at hs; cases hs
+    refine ⟨_, List.getElem?_set_self hlt, ?_⟩
+    cases has : sec.addrSet with
+    | false =>
+      simp only [Bool.not_false, if_true, setOffset, hi, truncA]
+      refine ⟨?_, trivial⟩
+      simp only [wsd_new_addr]
+      bv_omega
+    | true =>
+      rcases hocc with h1 | ⟨h1, h2⟩
+      · rw [has] at h1; cases h1
+      · simp only [has, Bool.not_true, Bool.false_eq_true, if_false, setOffset, hi, if_true, truncA]
+        refine ⟨?_, trivial⟩
+        -- the address-driven gap
+        have hb : wsd_addr_branch false true sec.stype sec.size = true := by
+          have e1 : (BitVec.ofNat 32 SHT_NOBITS != sec.stype) = true := by
+            simp only [bne_iff_ne, ne_eq]; exact fun e => h1 e.symm
+          have e2 : (BitVec.ofNat 32 SHT_NULL != sec.stype) = true := by
+            simp only [wsd_is_null, beq_eq_false_iff_ne, ne_eq] at hnn
+            simp only [bne_iff_ne, ne_eq]; exact hnn
+          have e3 : ((0 : BitVec 64) != sec.size) = true := by
+            simp only [bne_iff_ne, ne_eq]; exact fun e => h2 e.symm
+          simp only [wsd_addr_branch, e1, e2]
+          simpa using e3
+        rw [has, hb] at hgap
+        simp only [if_true] at hgap
+        split at hgap
+        · cases hgap
+        · simp only [Option.some.injEq] at hgap
+          subst hgap
+          simp only [wsd_cursor_gap, wsd_gap_addr, wsd_req_offset, wsd_cur_offset]
+          bv_omega
+
+open C03 in
+/-- **image_bytes_at_same_vaddr** (corollary-by-hypothesis of C04's `member_equidistant`): let `b`,
+    `g'` be section `i` and segment `j` of the saved object and assume they are equidistant.  Then in
+    the *saved bytes*, read with the specification's decoder: (1) `p_vaddr + (sh_offset − p_offset) =
+    sh_addr` — the loader maps the section's first file byte to the section's address; (2) that
+    address is the one the object held before the save, if it had one (always, for a loaded object);
+    (3) the section's data bytes are found at the file position the loader maps to `sh_addr`,
+    i.e. at `p_offset + (sh_addr − p_vaddr)`: every byte of the memory image that came from this
+    section is at the same virtual address as before. -/
+theorem image_bytes_at_same_vaddr {o : Obj} {os : OStream} {r : SaveRes} (hs : save o os = .ok r)
+    (hok : r.ok = true) (hg : os.Good) (htr : o.trans = []) (hidx : SegIdxOk o.segs) {h : Bytes}
+    (hh : r.obj.hdr = some h) (hl : LayoutOk r.obj.cls r.obj.enc h r.obj.secs r.obj.segs)
+    {i j : Nat} {a b : SecBuf} {g g' : Seg} (ha : o.secs[i]? = some a) (hb : r.obj.secs[i]? = some b)
+    (hgj : o.segs[j]? = some g) (hg' : r.obj.segs[j]? = some g')
+    (hfa : FieldsFit o.cls a) (hfg : SegFit o.cls g') (heq : Equidistant g' b) :
+    let img := r.os.content
+    let sb := (Hdr.e_shoff o.cls o.enc h).toNat + (Hdr.e_shentsize o.cls o.enc h).toNat * a.index
+    let pb := (Hdr.e_phoff o.cls o.enc h).toNat + (Hdr.e_phentsize o.cls o.enc h).toNat * g.index
+    let shAddr := BitVec.ofNat 64 (Spec.get (Spec.shdrL o.cls) o.enc img sb "sh_addr")
+    let shOff := BitVec.ofNat 64 (Spec.get (Spec.shdrL o.cls) o.enc img sb "sh_offset")
+    let pVaddr := BitVec.ofNat 64 (Spec.get (Spec.phdrL o.cls) o.enc img pb "p_vaddr")
+    let pOff := BitVec.ofNat 64 (Spec.get (Spec.phdrL o.cls) o.enc img pb "p_offset")
+    pVaddr + (shOff - pOff) = shAddr ∧
+    pVaddr = g.vaddr ∧
+    (a.addrSet = true → shAddr = a.addr) ∧
+    (a.stype ≠ BitVec.ofNat 32 SHT_NOBITS → a.stype ≠ BitVec.ofNat 32 SHT_NULL → a.size ≠ 0 →
+      a.data.isSome = true → slice img (pOff + (shAddr - pVaddr)).toNat a.view.length = a.view) := by
+  obtain ⟨fsec, fseg, ec, ee, _⟩ := save_writes_fields hs hok hidx
+  have sv := fsec.2 i a b ha hb
+  have sg := fseg.2 j g g' hgj hg'
+  have hbm : b ∈ r.obj.secs := List.mem_of_getElem? hb
+  have hgm : g' ∈ r.obj.segs := List.mem_of_getElem? hg'
+  obtain ⟨hrec, dat⟩ := save_decodes_section hs hok hg htr hh hl hbm
+  have prec := save_decodes_segment hs hok hg htr hh hl hgm
+  rw [ec, ee] at hrec prec
+  have eidx : b.index = a.index := sv.fields.2.2.2.2.2.2.2.2.2.1
+  have egidx : g'.index = g.index := sg.frame.index
+  rw [eidx] at hrec
+  rw [egidx] at prec
+  -- the saved section's fields fit (placement fields are truncated by the setters)
+  have fitb : FieldsFit o.cls b := by
+    obtain ⟨⟨l0, l1, f0, f1, f2⟩, _⟩ := save_frames hs hok hidx
+    have hi0 : i < l0.length := by
+      rw [f0.1]
+      rcases Nat.lt_or_ge i o.secs.length with hlt | hge
+      · exact hlt
+      · rw [List.getElem?_eq_none hge] at ha; cases ha
+    have hi1 : i < l1.length := by rw [f1.1]; exact hi0
+    exact resFrame_fit (f2.2 i l1[i] b (List.getElem?_eq_getElem hi1) hb)
+      (placed_fit (f1.2 i l0[i] l1[i] (List.getElem?_eq_getElem hi0) (List.getElem?_eq_getElem hi1))
+        (resFrame_fit (f0.2 i a l0[i] ha (List.getElem?_eq_getElem hi0)) hfa))
+  obtain ⟨_, _, _, s3, s4, _, _, _, _, _⟩ := shdr_get_at hrec fitb
+  obtain ⟨_, _, p2, p3, _, _, _, _⟩ := phdr_get_at prec hfg
+  simp only
+  rw [s3, s4, p2, p3, BitVec.ofNat_toNat, BitVec.ofNat_toNat, BitVec.ofNat_toNat, BitVec.ofNat_toNat,
+    BitVec.setWidth_eq, BitVec.setWidth_eq, BitVec.setWidth_eq, BitVec.setWidth_eq]
+  unfold Equidistant at heq
+  refine ⟨heq, ?_, fun hset => (sv.addrKept hset).1, fun n1 n2 n3 n4 => ?_⟩
+  · rw [sg.frame.rest]
+  · have e : (g'.offset + (b.addr - g'.vaddr)) = b.offset := by rw [← heq]; bv_omega
+    rw [e]
+    have hst : b.stype = a.stype := sv.fields.2.2.1
+    have hsz : b.size = a.size := sv.fields.2.2.2.2.1
+    have hda : b.data = a.data := (sv.dataSome n4).1
+    cases hd : a.data with
+    | none => rw [hd] at n4; cases n4
+    | some d =>
+      have := dat (by rw [hst]; exact n1) (by rw [hst]; exact n2) (by rw [hsz]; exact n3) d (by rw [hda]; exact hd)
+      simpa only [SecBuf.view, hd, Option.getD_some, hsz] using this
+
 end ElfioVerif.C05
